@@ -141,6 +141,8 @@ def elementwise(v):
 
 BOTTOM = Bottom()
 UNIT = Tuple([])
+OPT_SOME = "std::prelude::v1::Some"
+OPT_NONE = "std::prelude::v1::None"
 
 
 def show_cond(c):
@@ -298,6 +300,7 @@ class Ctx:
         self.max_depth = 8
         self.const_cache = {}
         self.positive = set()  # atom names assumed > 0 (declared by the rule, listed in evidence)
+        self.expand_minmax = False  # min/max as case splits (decidable bounds reasoning)
 
     # constructors ---------------------------------------------------------
     def num(self, c):
@@ -333,6 +336,11 @@ class Ctx:
             if name == "ceil":
                 return self.num(math.ceil(c))
             return self.num(math.floor(c + Fraction(1, 2)) if c >= 0 else -math.floor(-c + Fraction(1, 2)))
+        if name in ("min", "max") and self.expand_minmax and len(args) == 2 and all(isinstance(a, RatFunc) for a in args):
+            c = self._cmp_leaf("<=", args[0], args[1])
+            if name == "min":
+                return mk_ite(c, args[0], args[1])
+            return mk_ite(c, args[1], args[0])
         if name in ("min", "max"):
             # commutative: order arguments canonically
             args = sorted(args, key=lambda a: repr(a.key()) if isinstance(a, RatFunc) else repr(a))
@@ -405,6 +413,11 @@ class Ctx:
             (m, cden), = d.den.items()
             if cden > 0 and all(poly.atom_by_id(k).name in self.positive for k, _ in m):
                 d = RatFunc(dict(d.num), poly.p_const(1), self.tab)._norm()
+        if self.positive and poly.p_is_const(d.den) and len(d.num) == 1:
+            (m, cn), = d.num.items()
+            if m and all(poly.atom_by_id(k).name in self.positive for k, _ in m):
+                sgn = cn / poly.p_const_value(d.den)
+                return {"<": sgn < 0, "<=": sgn < 0, "==": False, "!=": True}[op]
         # (linear form)^3 + r op 0  <=>  linear form op cbrt(-r)   (x -> x^3 strictly monotone)
         cube = _cube_of_linear(d, self)
         if cube is not None:
@@ -973,7 +986,7 @@ class Evaluator:
         if c is False:
             return self.ev(e["el"], fr) if "el" in e else UNIT
         if not _is_boolish(c):
-            raise Opaque("if on non-boolean %r" % (c,))
+            c = self.as_bool(self.deref(c))
         return self.branch(c, lambda f2: self.ev(e["th"], f2), (lambda f2: self.ev(e["el"], f2)) if "el" in e else (lambda f2: UNIT), fr)
 
     def branch(self, c, then_f, else_f, fr):
@@ -1290,6 +1303,8 @@ class Evaluator:
 
     def ev_mcall(self, e, fr):
         recv = self.ev(e["r"], fr)
+        if e["r"].get("adj", "").endswith("m") and self.is_place(e["r"]) and not isinstance(recv, (MutRef, ElemRef)):
+            recv = MutRef(e["r"], fr)
         args = [recv] + [self.ev(x, fr) for x in e["a"]]
         c = e.get("c")
         if c is None:
@@ -1305,7 +1320,7 @@ class Evaluator:
         #    resolves to a palette impl (e.g. `Xyz / Xyz`) is inlined instead
         local_std = "ri" in c and spath.startswith(("std::", "core::"))
         raw_args = args
-        keep_refs = _OPKEY.get(spath) in ("into_array_mut",) or _OPKEY.get(rpath) in ("into_array_mut",)
+        keep_refs = _OPKEY.get(spath) in _REF_OPS or _OPKEY.get(rpath) in _REF_OPS
         if not keep_refs:
             args = [self.deref(a) if isinstance(a, MutRef) else a for a in args]
         if not local_std and spath.startswith(("std::ops::", "core::ops::")) and args and isinstance(self.deref(args[0]), Struct):
@@ -1341,8 +1356,14 @@ class Evaluator:
             if b2 is not None and b2["path"] not in self.ctx.no_inline and fr.depth < self.ctx.max_depth:
                 res, fr2 = self.inline(b2, c, raw_args, fr, generic_from_self=True)
                 return res
-        # 4. uninterpreted
-        return self.uninterpreted(self.app_name(rpath, c, fr), args)
+        # 4. uninterpreted; places passed by `&mut` receive an uninterpreted update
+        nm = self.app_name(rpath, c, fr)
+        res = self.uninterpreted(nm, args)
+        if not isinstance(nm, tuple):
+            for i, a in enumerate(raw_args):
+                if isinstance(a, MutRef):
+                    self.assign(a.target, self.uninterpreted("mut%d:%s" % (i, nm), args), a.frame)
+        return res
 
     def struct_op_impl(self, c, args):
         """std::ops trait applied to a palette struct through a where-clause: pick the impl by
@@ -1391,6 +1412,8 @@ class Evaluator:
         return "%s<%s>" % (path, ",".join(targs))
 
     def uninterpreted(self, name, args):
+        if isinstance(name, tuple) and name[0] == "num":
+            return self.ctx.num(name[1])
         self.uninterp[name] = self.uninterp.get(name, 0) + 1
         flat = []
         for a in args:
@@ -1530,6 +1553,37 @@ class Evaluator:
         # clamp(x, lo, hi) = min(max(x, lo), hi)
         return self.ctx.sapp("min", [self.ctx.sapp("max", [args[0], args[1]]), args[2]])
 
+    def write_through(self, ref, v, fr, e):
+        if isinstance(ref, MutRef):
+            return self.assign(ref.target, v, ref.frame)
+        if isinstance(ref, ElemRef):
+            ref.cur = v
+            ref.written = True
+            return
+        # `&mut self.x` written inline as the first argument expression
+        if e is not None:
+            tgt = e["r"] if e.get("k") == "mcall" else (e["a"][0] if e.get("a") else None)
+            while tgt is not None and tgt.get("k") == "ref":
+                tgt = tgt["e"]
+            if tgt is not None and self.is_place(tgt):
+                return self.assign(tgt, v, fr)
+        raise Opaque("cannot write through %r" % (ref,))
+
+    def op_clamp_assign(self, args, fr, c, e):
+        cur = self.deref(args[0])
+        self.write_through(args[0], self.op_clamp([cur, self.deref(args[1]), self.deref(args[2])], fr, c, e), fr, e)
+        return UNIT
+
+    def op_clamp_min_assign(self, args, fr, c, e):
+        cur = self.deref(args[0])
+        self.write_through(args[0], self.ctx.sapp("max", [cur, self.deref(args[1])]), fr, e)
+        return UNIT
+
+    def op_clamp_max_assign(self, args, fr, c, e):
+        cur = self.deref(args[0])
+        self.write_through(args[0], self.ctx.sapp("min", [cur, self.deref(args[1])]), fr, e)
+        return UNIT
+
     def op_clamp_min(self, args, fr, c, e):
         return self.ctx.sapp("max", [args[0], args[1]])
 
@@ -1591,6 +1645,10 @@ class Evaluator:
         if len(ta) == 2:
             src, dst = (ta[0], ta[1]) if c["n"] == "into" else (ta[1], ta[0])
             v = self.deref(args[0])
+            if dst.startswith(("std::option::Option<", "core::option::Option<")):
+                if src.startswith(("std::option::Option<", "core::option::Option<")):
+                    return v
+                return Struct(OPT_SOME, {"0": v})
             # colour -> [T; N] and back (impl_array_casts!): declaration order of the fields
             if dst.startswith("[") and isinstance(v, Struct) and v.path in self.F.adt_by_path:
                 return Array(self.struct_components(v))
@@ -1672,6 +1730,47 @@ class Evaluator:
         if isinstance(args[0], (IterV, Array)):
             return args[0]
         raise Opaque("into_iter of %r" % (args[0],))
+
+    # ---- Option ------------------------------------------------------------------------------
+    def opt_case(self, v, some_f, none_f, fr):
+        v = self.deref(v)
+        if isinstance(v, Ite):
+            return mk_ite_c(v.c, self.opt_case(v.t, some_f, none_f, fr), self.opt_case(v.f, some_f, none_f, fr))
+        if isinstance(v, Struct):
+            tail = v.path.split("::")[-1]
+            if tail == "Some":
+                return some_f(v.fields["0"], fr)
+            if tail == "None":
+                return none_f(fr)
+        if isinstance(v, RatFunc) and _single_atom(v) is not None:
+            cond = self.ctx.pred("is_some", [v])
+            payload = self.ctx.app("payload:Some.0", [v])
+            return self.branch(cond, lambda f2: some_f(payload, f2), lambda f2: none_f(f2), fr)
+        raise Opaque("Option operation on %r" % (v,))
+
+    def op_opt_map_or(self, args, fr, c, e):
+        return self.opt_case(args[0], lambda x, f2: self.apply(args[2], [x], f2), lambda f2: args[1], fr)
+
+    def op_opt_map_or_else(self, args, fr, c, e):
+        return self.opt_case(args[0], lambda x, f2: self.apply(args[2], [x], f2), lambda f2: self.apply(args[1], [], f2), fr)
+
+    def op_opt_map(self, args, fr, c, e):
+        return self.opt_case(args[0], lambda x, f2: Struct(OPT_SOME, {"0": self.apply(args[1], [x], f2)}), lambda f2: Struct(OPT_NONE, {}), fr)
+
+    def op_opt_unwrap_or(self, args, fr, c, e):
+        return self.opt_case(args[0], lambda x, f2: x, lambda f2: args[1], fr)
+
+    def op_opt_unwrap_or_else(self, args, fr, c, e):
+        return self.opt_case(args[0], lambda x, f2: x, lambda f2: self.apply(args[1], [], f2), fr)
+
+    def op_opt_unwrap(self, args, fr, c, e):
+        return self.opt_case(args[0], lambda x, f2: x, lambda f2: BOTTOM, fr)
+
+    def op_opt_is_some(self, args, fr, c, e):
+        return self.opt_case(args[0], lambda x, f2: True, lambda f2: False, fr)
+
+    def op_opt_is_none(self, args, fr, c, e):
+        return self.opt_case(args[0], lambda x, f2: False, lambda f2: True, fr)
 
     def op_phantom(self, args, fr, c, e):
         return Struct("PhantomData", {})
@@ -1784,6 +1883,10 @@ for _t in ("std", "core"):
     _reg(["%s::iter::Iterator::zip" % _t], "iter_zip")
     _reg(["%s::iter::Iterator::map" % _t], "iter_map")
     _reg(["%s::iter::IntoIterator::into_iter" % _t], "into_iter")
+for _t in ("std", "core"):
+    for _m in ("map_or", "map_or_else", "map", "unwrap_or", "unwrap_or_else", "unwrap", "is_some", "is_none"):
+        _reg(["%s::option::Option::<T>::%s" % (_t, _m)], "opt_" + _m)
+    _reg(["%s::option::Option::<T>::expect" % _t], "opt_unwrap")
 _reg(["cast::array::into_array"], "into_array")
 _reg(["cast::array::into_array_mut"], "into_array_mut")
 _reg(["num::Real::from_f64", "num::FromScalar::from_scalar"], "id.")
@@ -1812,6 +1915,10 @@ _reg(["num::Round::ceil"], "fn1.ceil")
 _reg(["num::Clamp::clamp"], "clamp")
 _reg(["num::Clamp::clamp_min"], "clamp_min")
 _reg(["num::Clamp::clamp_max"], "clamp_max")
+_reg(["num::ClampAssign::clamp_assign"], "clamp_assign")
+_reg(["num::ClampAssign::clamp_min_assign"], "clamp_min_assign")
+_reg(["num::ClampAssign::clamp_max_assign"], "clamp_max_assign")
+_REF_OPS = ("into_array_mut", "clamp_assign", "clamp_min_assign", "clamp_max_assign")
 _reg(["num::MulAdd::mul_add"], "mul_add")
 _reg(["num::MulSub::mul_sub"], "mul_sub")
 _reg(["num::Signum::signum"], "fn1.signum")
